@@ -652,10 +652,10 @@ impl<'a, 'b> GeneratorState<'a> {
                         self.acc_in_use = true;
                         return self.generate_condition_ex(
                             &ExprType::A(false),
-                            op,
-                            r,
+                            &operator,
+                            right,
                             pos,
-                            negate,
+                            false,
                             label,
                         );
                     }
@@ -705,10 +705,10 @@ impl<'a, 'b> GeneratorState<'a> {
                         self.acc_in_use = true;
                         return self.generate_condition_ex(
                             &ExprType::A(false),
-                            op,
-                            r,
+                            &operator,
+                            right,
                             pos,
-                            negate,
+                            false,
                             label,
                         );
                     }
